@@ -1588,3 +1588,363 @@ Proof.
       * unfold m_get, m_del. cbn [m_reg m_next]. rewrite aget_adel_same. reflexivity.
       * intros k NE. unfold m_del. cbn [m_reg]. apply aget_adel_other. exact NE.
 Qed.
+
+(* ------------------------------------------------------------------ Part 1i *)
+(* Task ids: the id-annotated system is the scheduler system with bookkeeping that nothing
+   reads - for every starting value of the process-wide counter, across the uint32 wrap. *)
+
+Lemma i_alloc_st s i s1 : i_alloc s i = Some s1 -> i_st s1 = i_st s.
+Proof.
+  unfold i_alloc. destruct (held_of i (i_held s)); [discriminate|].
+  destruct (next_cid (i_st s) i); [|discriminate]. intro H. inv H. reflexivity.
+Qed.
+
+Lemma held_of_In i h id : held_of i h = Some id -> In (i, id) h.
+Proof.
+  unfold held_of. destruct (find (fun x => Nat.eqb (fst x) i) h) as [x|] eqn:F; [|discriminate].
+  intro H. inv H. apply find_some in F. destruct F as [I E]. apply Nat.eqb_eq in E.
+  destruct x as [j v]. cbn [fst snd] in *. subst. exact I.
+Qed.
+
+Lemma held_of_app_new i h id : held_of i h = None -> held_of i (h ++ [(i, id)]) = Some id.
+Proof.
+  unfold held_of. induction h as [|x h IH]; cbn [find app fst].
+  - rewrite Nat.eqb_refl. reflexivity.
+  - destruct (Nat.eqb (fst x) i); [discriminate|]. exact IH.
+Qed.
+
+Lemma next_cid_none s i : next_cid s i = None -> tstep s (TPost i) = None.
+Proof.
+  unfold next_cid. cbn [tstep]. destruct (nth_error (posters s) i) as [[n [|k r]]|]; try reflexivity.
+  discriminate.
+Qed.
+
+Lemma i_st_step s l :
+  i_st (istep_or_stay s l) = match l with IStep t => step_or_stay (i_st s) t | IAlloc _ => i_st s end.
+Proof.
+  unfold istep_or_stay. destruct l as [i|t].
+  - cbn [istep]. destruct (i_alloc s i) as [s1|] eqn:EA; [apply (i_alloc_st _ _ _ EA) | reflexivity].
+  - destruct t as [i| | |].
+    + cbn [istep]. unfold step_or_stay. destruct (i_alloc s i) as [s1|] eqn:EA.
+      * pose proof (i_alloc_st _ _ _ EA) as ES.
+        assert (HH : held_of i (i_held s1) <> None).
+        { unfold i_alloc in EA. destruct (held_of i (i_held s)) eqn:EH; [discriminate|].
+          destruct (next_cid (i_st s) i); [|discriminate]. inv EA. cbn [i_held].
+          rewrite (held_of_app_new _ _ _ EH). discriminate. }
+        destruct (held_of i (i_held s1)) as [id|]; [|contradiction].
+        rewrite ES. destruct (tstep (i_st s) (TPost i)); [reflexivity | exact ES].
+      * destruct (held_of i (i_held s)) as [id|] eqn:EH.
+        -- destruct (tstep (i_st s) (TPost i)); reflexivity.
+        -- unfold i_alloc in EA. rewrite EH in EA.
+           destruct (next_cid (i_st s) i) eqn:EN; [discriminate|].
+           rewrite (next_cid_none _ _ EN). reflexivity.
+    + cbn [istep]. unfold step_or_stay. destruct (tstep (i_st s) TCons); reflexivity.
+    + cbn [istep]. unfold step_or_stay. destruct (tstep (i_st s) TStop); reflexivity.
+    + cbn [istep]. unfold step_or_stay. destruct (tstep (i_st s) TExit); reflexivity.
+Qed.
+
+Lemma id_blind_run : forall ls s, i_st (irun s ls) = run_sched (i_st s) (erase ls).
+Proof.
+  induction ls as [|l ls IH]; intro s; [reflexivity|].
+  unfold irun. cbn [fold_left]. fold (irun (istep_or_stay s l) ls). rewrite IH, i_st_step.
+  destruct l; reflexivity.
+Qed.
+
+Lemma id_blind progs ws c0 ls :
+  i_st (irun (iinit progs ws c0) ls) = run_sched (init progs ws) (erase ls).
+Proof. apply id_blind_run. Qed.
+
+Lemma id_reachable progs ws c0 ls : reachable progs ws (i_st (irun (iinit progs ws c0) ls)).
+Proof. exists (erase ls). apply id_blind. Qed.
+
+(* ---- which id each executed task carried ---- *)
+
+Lemma last_nonempty_default {A} : forall (l : list A) x d1 d2, last (x :: l) d1 = last (x :: l) d2.
+Proof.
+  induction l as [|y l IH]; intros x d1 d2; [reflexivity|].
+  change (last (x :: y :: l) d1) with (last (y :: l) d1).
+  change (last (x :: y :: l) d2) with (last (y :: l) d2). apply IH.
+Qed.
+
+Lemma alloc_ids_snoc : forall n c0, alloc_ids c0 (S n) = alloc_ids c0 n ++ [alloc_id (last (alloc_ids c0 n) c0)].
+Proof.
+  induction n as [|n IH]; intro c0; [reflexivity|].
+  change (alloc_ids c0 (S (S n))) with (alloc_id c0 :: alloc_ids (alloc_id c0) (S n)).
+  rewrite IH. change (alloc_ids c0 (S n)) with (alloc_id c0 :: alloc_ids (alloc_id c0) n).
+  cbn [app]. do 3 f_equal.
+  destruct (alloc_ids (alloc_id c0) n) as [|x r] eqn:E; [reflexivity|].
+  change (last (alloc_id c0 :: x :: r) c0) with (last (x :: r) c0). f_equal. apply last_nonempty_default.
+Qed.
+
+Lemma alloc_ids_length : forall n c0, length (alloc_ids c0 n) = n.
+Proof. induction n as [|n IH]; intro c0; cbn; [reflexivity | rewrite IH; reflexivity]. Qed.
+
+Lemma wrap32_succ z k : wrap32 (wrap32 (z + 1) + Z.of_nat k) = wrap32 (z + Z.of_nat (S k)).
+Proof.
+  unfold wrap32. rewrite Zplus_mod_idemp_l. f_equal. rewrite Nat2Z.inj_succ. unfold Z.succ.
+  rewrite <- !Z.add_assoc. f_equal. apply Z.add_comm.
+Qed.
+
+(* the k-th id handed out from counter value c0 is (c0 + k) mod 2^32 *)
+Lemma alloc_ids_closed : forall n c0,
+  alloc_ids c0 n = map (fun k => wrap32 (c0 + Z.of_nat k)) (seq 1 n).
+Proof.
+  induction n as [|n IH]; intro c0; [reflexivity|].
+  cbn [alloc_ids seq map]. f_equal.
+  rewrite IH, <- (seq_shift n 1), map_map. apply map_ext. intro k. unfold alloc_id. apply wrap32_succ.
+Qed.
+
+Lemma wrap32_range z : 0 <= wrap32 z < two32.
+Proof. unfold wrap32, two32. apply Z.mod_pos_bound. reflexivity. Qed.
+
+Lemma tstep_post_shape s i s' : tstep s (TPost i) = Some s' ->
+  exists n k r, nth_error (posters s) i = Some (mkP n (k :: r))
+    /\ posters s' = set_nth i (mkP (S n) r) (posters s)
+    /\ executed s' = executed s
+    /\ queue s' = if stopped s then queue s else queue s ++ [((i, n), k)].
+Proof.
+  cbn [tstep]. destruct (nth_error (posters s) i) as [[n [|k r]]|]; try discriminate.
+  unfold post, chan_send. intro H. exists n, k, r. split; [reflexivity|].
+  destruct (stopped s).
+  - inv H. repeat split.
+  - destruct (Nat.ltb (length (queue s)) cap); inv H. repeat split.
+Qed.
+
+Lemma tstep_cons_shape s s' : tstep s TCons = Some s' ->
+  exists it q', queue s = it :: q' /\ queue s' = q' /\ executed s' = executed s ++ [it]
+    /\ posters s' = posters s.
+Proof.
+  cbn [tstep]. destruct (alive s); [|discriminate]. destruct (queue s) as [|it q']; [discriminate|].
+  rewrite do_task_ok. intro H. inv H. exists it, q'. repeat split.
+Qed.
+
+Lemma next_cid_posters s s' i : posters s' = posters s -> next_cid s' i = next_cid s i.
+Proof. unfold next_cid. intro E. rewrite E. reflexivity. Qed.
+
+Lemma combine_app {A B} (l1 : list A) (r1 : list B) l2 r2 :
+  length l1 = length r1 -> combine (l1 ++ l2) (r1 ++ r2) = combine l1 r1 ++ combine l2 r2.
+Proof.
+  revert r1. induction l1 as [|x l1 IH]; intros [|y r1] L; cbn in L; try discriminate; [reflexivity|].
+  cbn. f_equal. apply IH. lia.
+Qed.
+
+Record IInv (c0 : Z) (s : ist) : Prop := {
+  ii_len : length (i_qids s) = length (queue (i_st s));
+  ii_q : forall c id, In (c, id) (combine (map fst (queue (i_st s))) (i_qids s)) -> In (c, id) (i_given s);
+  ii_held : forall i id, In (i, id) (i_held s) ->
+            exists c, next_cid (i_st s) i = Some c /\ In (c, id) (i_given s);
+  ii_x : map fst (i_xids s) = exec_ids (i_st s);
+  ii_xg : forall c id, In (c, id) (i_xids s) -> In (c, id) (i_given s);
+  ii_ids : map snd (i_given s) = alloc_ids c0 (length (i_given s));
+  ii_ctr : i_ctr s = last (map snd (i_given s)) c0
+}.
+
+Lemma iinv_init progs ws c0 : IInv c0 (iinit progs ws c0).
+Proof. constructor; cbn; try reflexivity; intros ? ? []. Qed.
+
+Ltac iproj := cbn [i_st i_ctr i_held i_qids i_xids i_given].
+
+Lemma iinv_alloc c0 s i s1 : IInv c0 s -> i_alloc s i = Some s1 -> IInv c0 s1.
+Proof.
+  intros I H. unfold i_alloc in H. destruct (held_of i (i_held s)) eqn:EH; [discriminate|].
+  destruct (next_cid (i_st s) i) as [c|] eqn:EN; [|discriminate]. inv H. constructor; iproj.
+  - apply (ii_len _ _ I).
+  - intros c1 id H. apply in_or_app. left. apply (ii_q _ _ I). exact H.
+  - intros j id H. apply in_app_or in H. destruct H as [H|[H|[]]].
+    + destruct (ii_held _ _ I _ _ H) as [c1 [E1 G1]]. exists c1. split; [exact E1|].
+      apply in_or_app. left. exact G1.
+    + inv H. exists c. split; [exact EN|]. apply in_or_app. right. left. reflexivity.
+  - apply (ii_x _ _ I).
+  - intros c1 id H. apply in_or_app. left. apply (ii_xg _ _ I). exact H.
+  - rewrite map_app, app_length. cbn [map snd length]. rewrite Nat.add_1_r, alloc_ids_snoc.
+    rewrite <- (ii_ids _ _ I), <- (ii_ctr _ _ I). reflexivity.
+  - rewrite map_app. cbn [map snd]. rewrite last_last. reflexivity.
+Qed.
+
+Lemma iinv_send c0 s i id st' :
+  IInv c0 s -> held_of i (i_held s) = Some id -> tstep (i_st s) (TPost i) = Some st' ->
+  IInv c0 (mkI st' (i_ctr s) (unhold i (i_held s))
+               (if stopped (i_st s) then i_qids s else i_qids s ++ [id]) (i_xids s) (i_given s)).
+Proof.
+  intros I EH ET. destruct (tstep_post_shape _ _ _ ET) as [n [k [r [HP [EP [EX EQ]]]]]].
+  apply held_of_In in EH. destruct (ii_held _ _ I _ _ EH) as [c [EN G]].
+  assert (EC : c = (i, n)). { unfold next_cid in EN. rewrite HP in EN. inv EN. reflexivity. }
+  subst c.
+  assert (HO : forall j v, In (j, v) (unhold i (i_held s)) ->
+               exists c, next_cid st' j = Some c /\ In (c, v) (i_given s)).
+  { intros j v H. unfold unhold in H. apply filter_In in H. destruct H as [H NE]. cbn [fst] in NE.
+    apply negb_true_iff, Nat.eqb_neq in NE. destruct (ii_held _ _ I _ _ H) as [c [E1 G1]].
+    exists c. split; [|exact G1]. unfold next_cid in *. rewrite EP.
+    rewrite nth_error_set_nth_other by congruence. exact E1. }
+  constructor; iproj.
+  - rewrite EQ. destruct (stopped (i_st s)); [apply (ii_len _ _ I)|].
+    rewrite !app_length, (ii_len _ _ I). reflexivity.
+  - rewrite EQ. destruct (stopped (i_st s)); [apply (ii_q _ _ I)|].
+    intros c1 v H. rewrite map_app, combine_app in H by (rewrite map_length; symmetry; apply (ii_len _ _ I)).
+    apply in_app_or in H. destruct H as [H|[H|[]]]; [apply (ii_q _ _ I); exact H|].
+    cbn [fst] in H. inv H. exact G.
+  - exact HO.
+  - unfold exec_ids. rewrite EX. apply (ii_x _ _ I).
+  - apply (ii_xg _ _ I).
+  - apply (ii_ids _ _ I).
+  - apply (ii_ctr _ _ I).
+Qed.
+
+Lemma iinv_keep c0 s st' :
+  IInv c0 s -> queue st' = queue (i_st s) -> executed st' = executed (i_st s) ->
+  posters st' = posters (i_st s) ->
+  IInv c0 (mkI st' (i_ctr s) (i_held s) (i_qids s) (i_xids s) (i_given s)).
+Proof.
+  intros I EQ EX EP. constructor; iproj.
+  - rewrite EQ. apply (ii_len _ _ I).
+  - rewrite EQ. apply (ii_q _ _ I).
+  - intros i id H. rewrite (next_cid_posters _ _ i EP). apply (ii_held _ _ I). exact H.
+  - unfold exec_ids. rewrite EX. apply (ii_x _ _ I).
+  - apply (ii_xg _ _ I).
+  - apply (ii_ids _ _ I).
+  - apply (ii_ctr _ _ I).
+Qed.
+
+Lemma iinv_step c0 s l s' : IInv c0 s -> istep s l = Some s' -> IInv c0 s'.
+Proof.
+  intros I H. destruct l as [i|t].
+  - apply (iinv_alloc c0 s i); assumption.
+  - destruct t as [i| | |]; cbn [istep] in H.
+    + assert (I1 : IInv c0 (match i_alloc s i with Some s1 => s1 | None => s end)).
+      { destruct (i_alloc s i) eqn:EA; [apply (iinv_alloc c0 s i); assumption | exact I]. }
+      destruct (match i_alloc s i with Some s1 => s1 | None => s end) as [st1 ctr1 held1 q1 x1 g1] eqn:E1.
+      cbn [i_held i_st i_ctr i_qids i_xids i_given] in H.
+      destruct (held_of i held1) as [id|] eqn:EH; [|discriminate].
+      destruct (tstep st1 (TPost i)) as [st'|] eqn:ET; inv H; [|exact I1].
+      apply (iinv_send c0 (mkI st1 ctr1 held1 q1 x1 g1) i id st' I1 EH ET).
+    + destruct (tstep (i_st s) TCons) as [st'|] eqn:ET; [|discriminate]. inv H.
+      destruct (tstep_cons_shape _ _ ET) as [it [q' [EQ [EQ' [EX EP]]]]].
+      pose proof (ii_len _ _ I) as L. rewrite EQ in L.
+      destruct (i_qids s) as [|id ids] eqn:EI; [discriminate L|]. cbn [tl t_id].
+      rewrite EQ. constructor; iproj.
+      * rewrite EQ'. cbn in L. lia.
+      * rewrite EQ'. intros c v H. apply (ii_q _ _ I). rewrite EQ, EI. cbn [map combine]. right. exact H.
+      * intros j v H. rewrite (next_cid_posters _ _ j EP). apply (ii_held _ _ I). exact H.
+      * unfold exec_ids. rewrite EX, !map_app. cbn [map fst]. f_equal. apply (ii_x _ _ I).
+      * intros c v H. apply in_app_or in H. destruct H as [H|[H|[]]]; [apply (ii_xg _ _ I); exact H|].
+        inv H. apply (ii_q _ _ I). rewrite EQ, EI. cbn [map combine]. left. reflexivity.
+      * apply (ii_ids _ _ I).
+      * apply (ii_ctr _ _ I).
+    + destruct (tstep (i_st s) TStop) as [st'|] eqn:ET; [|discriminate]. inv H.
+      cbn [tstep] in ET. destruct (stop_pending (i_st s)); [|discriminate]. inv ET.
+      apply iinv_keep; [exact I | reflexivity | reflexivity | reflexivity].
+    + destruct (tstep (i_st s) TExit) as [st'|] eqn:ET; [|discriminate]. inv H.
+      cbn [tstep] in ET. destruct (stopped (i_st s) && alive (i_st s)); [|discriminate]. inv ET.
+      apply iinv_keep; [exact I | reflexivity | reflexivity | reflexivity].
+Qed.
+
+Lemma iinv_run c0 : forall ls s, IInv c0 s -> IInv c0 (irun s ls).
+Proof.
+  induction ls as [|l ls IH]; intros s I; [exact I|].
+  unfold irun. cbn [fold_left]. apply IH. unfold istep_or_stay.
+  destruct (istep s l) eqn:E; [apply (iinv_step c0 s l); assumption | exact I].
+Qed.
+
+Lemma id_independent_holds progs ws c0 ls : id_independent progs ws c0 ls.
+Proof.
+  pose proof (iinv_run c0 ls _ (iinv_init progs ws c0)) as I. unfold id_independent.
+  split; [apply id_blind|]. split; [apply id_reachable|].
+  split; [apply (ii_x _ _ I)|]. split; [apply (ii_xg _ _ I) | apply (ii_len _ _ I)].
+Qed.
+
+Lemma ids_wrap_holds progs ws c0 ls : ids_wrap progs ws c0 ls.
+Proof.
+  pose proof (iinv_run c0 ls _ (iinv_init progs ws c0)) as I. unfold ids_wrap.
+  assert (E : map snd (i_given (irun (iinit progs ws c0) ls))
+              = map (fun k => wrap32 (c0 + Z.of_nat k)) (seq 1 (length (i_given (irun (iinit progs ws c0) ls))))).
+  { rewrite <- alloc_ids_closed. apply (ii_ids _ _ I). }
+  split; [exact E|]. split; [|apply (ii_ctr _ _ I)].
+  intros c id H. apply (in_map snd) in H. cbn [snd] in H. rewrite E in H.
+  apply in_map_iff in H. destruct H as [k [EK _]]. subst id. apply wrap32_range.
+Qed.
+
+(* ------------------------------------------------------------------ Part 2s *)
+(* Shared task lists: a chain leaves the list it was given as it found it, so any number of
+   chains over one list - in any interleaving - are each a run of the single-chain machine
+   over the list as the caller defined it. *)
+
+Lemma set_nth_same {A} (d : A) : forall (mem : list A) l, set_nth l (nth l mem d) mem = mem.
+Proof.
+  induction mem as [|y r IH]; intro l; [destruct l; reflexivity|].
+  destruct l as [|l]; cbn; [reflexivity | rewrite IH; reflexivity].
+Qed.
+
+Lemma cstep_mem_frame mem s l m' s' : cstep_mem mem s l = Some (m', s') -> m' = mem /\ cstep mem s l = Some s'.
+Proof.
+  unfold cstep_mem. destruct (cstep mem s l); [|discriminate]. intro H. inv H. split; reflexivity.
+Qed.
+
+Lemma shstep_frame s l s' : shstep s l = Some s' -> sh_mem s' = sh_mem s.
+Proof.
+  destruct l as [l|c lab]; cbn [shstep]; [intro H; inv H; reflexivity|].
+  destruct (nth_error (sh_chains s) c) as [[l cs]|]; [|discriminate].
+  destruct (cstep_mem (nth l (sh_mem s) []) cs lab) as [[m' cs']|] eqn:E; [|discriminate].
+  intro H. inv H. cbn [sh_mem]. destruct (cstep_mem_frame _ _ _ _ _ E) as [EM _]. subst m'.
+  apply set_nth_same.
+Qed.
+
+Lemma shrun_snoc mem ls l : shrun mem (ls ++ [l]) = shstep_or_stay (shrun mem ls) l.
+Proof. unfold shrun. rewrite fold_left_app. reflexivity. Qed.
+
+Lemma chain_frame mem ls : sh_mem (shrun mem ls) = mem.
+Proof.
+  induction ls as [|l ls IH] using rev_ind; [reflexivity|].
+  rewrite shrun_snoc. unfold shstep_or_stay.
+  destruct (shstep (shrun mem ls) l) eqn:E; [|exact IH].
+  rewrite (shstep_frame _ _ _ E). exact IH.
+Qed.
+
+Lemma Forall_set_nth {A} (P : A -> Prop) x : forall l i, Forall P l -> P x -> Forall P (set_nth i x l).
+Proof.
+  induction l as [|y l IH]; intros i F HX; [destruct i; constructor|].
+  inv F. destruct i as [|i]; cbn; constructor; try assumption. apply IH; assumption.
+Qed.
+
+Lemma shared_chains_inv mem ls :
+  Forall (fun lc => creachable (nth (fst lc) mem []) (snd lc)) (sh_chains (shrun mem ls)).
+Proof.
+  induction ls as [|l ls IH] using rev_ind; [constructor|].
+  rewrite shrun_snoc. unfold shstep_or_stay.
+  destruct (shstep (shrun mem ls) l) as [s'|] eqn:E; [|exact IH].
+  pose proof (chain_frame mem ls) as EM.
+  destruct l as [l|c lab]; cbn [shstep] in E.
+  - inv E. cbn [sh_chains]. apply Forall_app. split; [exact IH|].
+    constructor; [|constructor]. cbn [fst snd]. exists []. reflexivity.
+  - destruct (nth_error (sh_chains (shrun mem ls)) c) as [[l cs]|] eqn:EN; [|discriminate].
+    destruct (cstep_mem (nth l (sh_mem (shrun mem ls)) []) cs lab) as [[m' cs']|] eqn:EC; [|discriminate].
+    inv E. cbn [sh_chains]. apply Forall_set_nth; [exact IH|]. cbn [fst snd].
+    destruct (cstep_mem_frame _ _ _ _ _ EC) as [_ ES]. rewrite EM in ES.
+    rewrite Forall_forall in IH. specialize (IH _ (nth_error_In _ _ EN)). cbn [fst snd] in IH.
+    destruct IH as [ls0 E0]. exists (ls0 ++ [lab]). rewrite crun_snoc. unfold cstep_or_stay.
+    rewrite <- E0, ES. reflexivity.
+Qed.
+
+Lemma shared_chains mem ls c l cs :
+  nth_error (sh_chains (shrun mem ls)) c = Some (l, cs) ->
+  creachable (nth l mem []) cs.
+Proof.
+  intro H. pose proof (shared_chains_inv mem ls) as F. rewrite Forall_forall in F.
+  apply (F _ (nth_error_In _ _ H)).
+Qed.
+
+Lemma shared_chains_spec mem ls c l cs :
+  nth_error (sh_chains (shrun mem ls)) c = Some (l, cs) -> shared_chain_ok (nth l mem []) cs.
+Proof.
+  intro H. pose proof (shared_chains mem ls c l cs H) as R. unfold shared_chain_ok.
+  split; [exact R|]. split; [apply chain_spec_holds; exact R|].
+  split; [apply final_at_most_once; exact R | apply final_exactly_once; exact R].
+Qed.
+
+Lemma any_counter progs ws c0 ls :
+  let s := i_st (irun (iinit progs ws c0) ls) in
+  exactly_once_safe progs s /\ exactly_once_quiescent progs s /\ stopped_quiescent s /\ per_poster_fifo progs s /\ panic_isolated s.
+Proof.
+  pose proof (id_reachable progs ws c0 ls) as R. cbv zeta.
+  split; [apply (exactly_once_safe_holds _ _ _ R)|]. split; [apply (exactly_once_quiescent_holds _ _ _ R)|].
+  split; [apply (stopped_quiescent_holds _ _ _ R)|]. split; [apply (per_poster_fifo_holds _ _ _ R) | apply (panic_isolated_holds _ _ _ R)].
+Qed.
